@@ -340,10 +340,26 @@ theorem unsubscribed_object_silent {s : State} {o : Nat} {ob : Obj}
   · unfold writeFlags; rw [hfind]; simp [hd, applyChange, setObj]
 
 /-- object-level "last reported value": whatever sends notifications about an analog object
-    (triggered execution, initial notification, periodic report) records the value it reports -/
-theorem last_reported (now : Nat) (ob : Obj) (d : Det) (only : Option Nat) (h : ob.incr = true) :
+    (triggered execution, periodic report, initial notification of a record that is still
+    listed) records the value it reports … -/
+theorem last_reported (now : Nat) (ob : Obj) (d : Det) (only : Option Nat) (h : ob.incr = true)
+    (hm : sendMoves d only = true) :
     (sendNotifications now ob d only).1.prev = some ob.pv := by
-  rw [send_fst]; simp [h]
+  rw [send_fst]; simp [h, hm]
+
+/-- … and a deferred initial notification whose record is gone reports nothing and leaves the
+    last reported value alone -/
+theorem last_reported_stale (now : Nat) (ob : Obj) (d : Det) (sid : Nat)
+    (hm : d.subs.any (fun c => c.sid == sid) = false) :
+    sendNotifications now ob d (some sid) = (d, []) := by
+  have hnone : d.subs.find? (fun c => c.sid == sid) = none := by
+    rw [List.find?_eq_none]
+    intro x hx hp
+    have : d.subs.any (fun c => c.sid == sid) = true := List.any_eq_true.mpr ⟨x, hx, hp⟩
+    rw [hm] at this; cases this
+  unfold sendNotifications
+  simp only [sendMoves, hm, Bool.and_false, Bool.false_eq_true, if_false, hnone]
+  split <;> rfl
 
 /-! ## notify_exact -/
 
